@@ -740,6 +740,10 @@ func (e *Exec) exec(fr *Frame, ins ssa.Instruction) {
 	case *ssa.MakeSlice:
 		n := e.get(fr, x.Len).(*Term)
 		c := e.get(fr, x.Cap).(*Term)
+		if n.IsConst() && !c.IsConst() {
+			// symbolic capacity hint: contents and length do not depend on it (growth reallocates)
+			c = n
+		}
 		if !n.IsConst() || !c.IsConst() {
 			e.unsupported("make slice with symbolic size")
 		}
